@@ -592,7 +592,7 @@ class Acl(AceGroup):
             return: "ip access-list NAME"
         """
         items = ["ip access-list"]
-        if self._platform == "ios":
+        if self._platform != "nxos":
             items.append(self._type)
         items.append(self._name)
         return " ".join(items)
